@@ -27,6 +27,23 @@ def parseHV? (s : String) : Option HV :=
 def parseOptNat? (s : String) : Option (Option Nat) :=
   if s = "-" then some none else s.toNat?.map some
 
+/-- `x<id>:x<key>` -/
+def parsePair? (s : String) : Option (Str × Key) :=
+  match s.splitOn ":" with
+  | [a, b] => do
+    let a ← parseX? a
+    let b ← parseX? b
+    pure (a, b)
+  | _ => none
+
+def parsePairs? (s : String) : Option (List (Str × Key)) :=
+  if s = "-" then some [] else (s.splitOn ",").mapM parsePair?
+
+def fpOf (pairs : List (Str × Key)) (k : Key) : Str :=
+  match pairs.find? (fun e => e.2 == k) with
+  | some e => e.1
+  | none => []
+
 def parseBool? (s : String) : Option Bool :=
   if s = "0" then some false else if s = "1" then some true else none
 
@@ -70,7 +87,7 @@ def parseToken? : List String → Option Token
     let nbf ← parseOptNat? nbf
     let svc ← parseBool? svc
     let bits ← parseXL? bits
-    pure { alg, kind, kid, sigOk := sig, iss, user, exp, iat, nbf, service := svc, bits }
+    pure { alg, kind, kid, sigValid := sig, iss, user, exp, iat, nbf, service := svc, bits }
   | _ => none
 
 def parseSkips? (s : String) : Option (Bool × Bool × Bool) :=
@@ -109,11 +126,15 @@ def doParse (st : St) (now : Nat) (inp : Input) : St × List String :=
 
 def step (st : St) (toks : List String) : St × List String :=
   match toks with
-  | ["cfg", app, keys, prot, lm, ins] =>
-    match parseX? app, parseXL? keys, parseXL? prot, parseBool? lm, parseBool? ins with
-    | some app, some keys, some prot, some lm, some ins =>
-      ({ cfg := { app, keys, prot, localMode := lm, insecure := ins }, ai := none }, [])
-    | _, _, _, _, _ => (st, ["bad-op"])
+  -- cfg <app> <listed keys as fingerprint:key, in configuration order> <entries put into the map directly> <prot> <local> <insecure>
+  | ["cfg", app, listed, extra, prot, lm, ins] =>
+    match parseX? app, parsePairs? listed, parsePairs? extra, parseXL? prot, parseBool? lm, parseBool? ins with
+    | some app, some listed, some extra, some prot, some lm, some ins =>
+      -- ParseVkuthKeys on the listed keys (fingerprints are inputs), then `m[id] = k` for the extra entries
+      let table := extra.foldl (fun m e => tableSet m e.1 e.2) (parseKeys (fpOf listed) (listed.map (·.2)))
+      let dump := (table.map (fun e => showX e.1 ++ ":" ++ showX e.2)).toArray.qsort (· < ·) |>.toList
+      ({ cfg := { app, keys := table, prot, localMode := lm, insecure := ins }, ai := none }, ["keys " ++ showList dump])
+    | _, _, _, _, _, _ => (st, ["bad-op"])
   | ["tok", now, "empty"] => match now.toNat? with
     | some now => doParse st now .empty
     | none => (st, ["bad-op"])
